@@ -39,7 +39,7 @@ func (eng) Rule(mode string) string {
 	if mode == "c12" {
 		return "random API histories on the real Store: assemblies of 0..4 operators and 0..3 source runners (duplicate names in the lists possible), acks in random order with injected duplicates, stale/future ids, unknown senders, acks without a pending checkpoint, creations while one is pending, savepoint joins, restarts (new Store + LoadCheckpoint on the same storage) with and without a pending checkpoint, fault injection 'the Remove calls of this process never reach the storage' so that restarts find 2..6 snapshot files of several generations (listing in byte order of the names, as LocalDirectory gives), plus structured multi-generation histories (publish 1..4, restart, create). Non-trivial: at least one checkpoint published and at least one rejected/ignored ack or a restart; distinct by hash of the op list."
 	}
-	return "seg: pathSegment of boundary, small, random 64-bit and carry-pattern ids; load: real LocalDirectory holding snapshot files of random id sets (neighbouring ids around base64 alphabet-order inversions, small and huge ids), listing order and LoadCheckpoint result; sched: random schedules of pub / release-write / release-remove / receive-notification / crash over up to 4 overlapping publications from random base ids. Non-trivial: (load) >= 2 ids; (sched) >= 2 publications with at least one write released out of id order or a crash with >= 2 files present; distinct by hash of the op list."
+	return "seg: pathSegment of boundary, small, random 64-bit and carry-pattern ids; load: real LocalDirectory holding snapshot files of random id sets (neighbouring ids around base64 alphabet-order inversions, small and huge ids), listing order and LoadCheckpoint result; sched: random schedules of pub (snapshots of 0..7 split states, some as savepoints) / release-write / release-remove / receive-notification / crash / start-from-a-savepoint over up to 4 overlapping publications from random base ids; rewind: a run with a savepoint and k further large checkpoints, a second run started from the savepoint on the same storage that reaches the same ids with smaller snapshots (snapshot files rewritten with shorter content), then a plain restart; every written snapshot file is read back and decoded. Non-trivial: (load) >= 2 ids; (sched) >= 2 publications with at least one write released out of id order or a crash with >= 2 files present; distinct by hash of the op list."
 }
 
 // ---------- shared pieces ----------
@@ -59,11 +59,15 @@ type world struct {
 	spl   *splitter
 }
 
-func (w *world) boot(gated bool) error {
+func (w *world) boot(gated bool) error { return w.bootFrom(gated, "") }
+
+// bootFrom starts a new Store on the same storage; spURI != "" starts it from that savepoint.
+func (w *world) bootFrom(gated bool, spURI string) error {
 	w.g = &gate{inner: w.inner, gated: gated}
 	w.notes = make(chan []uint64)
 	w.spl = &splitter{}
 	w.store = snapshots.NewStore(&snapshots.NewStoreParams{
+		SavepointURI:               spURI,
 		FileStore:                  w.g,
 		SavepointsPath:             "savepoints",
 		CheckpointsPath:            "checkpoints",
@@ -114,6 +118,22 @@ func (w *world) snapshotFiles() []uint64 {
 	return ids
 }
 
+func containsU(xs []uint64, x uint64) bool {
+	for _, y := range xs {
+		if y == x {
+			return true
+		}
+	}
+	return false
+}
+func slicesMax(xs []uint64) uint64 {
+	var m uint64
+	for _, x := range xs {
+		m = max(m, x)
+	}
+	return m
+}
+
 func nlist(xs []uint64) string {
 	it := make([]string, len(xs))
 	for i, x := range xs {
@@ -151,7 +171,8 @@ func snapTerm(s *snapObs) string {
 // ---------- mode c12 ----------
 
 type op12 struct {
-	K   string   `json:"k"` // ck | sp | ao | as | rs | lr
+	K   string   `json:"k"` // ck | sp | ao | as | rs | lr | rf | ab
+	I   int      `json:"i,omitempty"` // rf: index (mod their number) of the savepoint artifact to start from
 	B   bool     `json:"b,omitempty"` // lr: Remove calls get lost from now on (until the next restart)
 	Ops []uint64 `json:"ops,omitempty"`
 	Srs []uint64 `json:"srs,omitempty"`
@@ -210,6 +231,7 @@ func execC12(c *hx.Case) (*hx.Result, error) {
 	var observed []any
 	tags := map[string]bool{}
 	npub, nbad, nrs := 0, 0, 0
+	var sps []uint64 // ids whose savepoint artifact has been written
 	for _, raw := range c.Ops {
 		var o op12
 		if err := json.Unmarshal(raw, &o); err != nil {
@@ -253,6 +275,9 @@ func execC12(c *hx.Case) (*hx.Result, error) {
 			}
 			if po != nil {
 				npub++
+				if po.SpW && !containsU(sps, po.Snap.ID) {
+					sps = append(sps, po.Snap.ID)
+				}
 			}
 			if err != nil || o.D != 0 {
 				nbad++
@@ -273,6 +298,9 @@ func execC12(c *hx.Case) (*hx.Result, error) {
 			}
 			if po != nil {
 				npub++
+				if po.SpW && !containsU(sps, po.Snap.ID) {
+					sps = append(sps, po.Snap.ID)
+				}
 			}
 			if err != nil || o.D != 0 {
 				nbad++
@@ -285,7 +313,11 @@ func execC12(c *hx.Case) (*hx.Result, error) {
 			w.g.mu.Unlock()
 			terms = append(terms, "XLoseRemoves "+hx.CoqBool(o.B))
 			observed = append(observed, map[string]any{"lose_removes": o.B})
-		case "rs":
+		case "ab":
+			w.store.AbortPendingCheckpoint()
+			terms = append(terms, "XAbort")
+			observed = append(observed, "abort")
+		case "rs", "rf":
 			nrs++
 			w.abandon()
 			files := w.snapshotFiles()
@@ -295,8 +327,21 @@ func execC12(c *hx.Case) (*hx.Result, error) {
 			if len(files) >= 3 {
 				tags["restart_with_3+_files"] = true
 			}
-			if err := w.boot(false); err != nil {
-				return nil, fmt.Errorf("LoadCheckpoint: %v", err)
+			spURI, spID := "", uint64(0)
+			if o.K == "rf" && len(sps) > 0 {
+				spID = sps[o.I%len(sps)]
+				var err error
+				if spURI, err = w.store.SavepointURIForID(spID); err != nil {
+					return nil, err
+				}
+				tags["start_from_savepoint"] = true
+				if len(files) > 0 && spID < slicesMax(files) {
+					tags["savepoint_rewind_below_newest_file"] = true
+				}
+			}
+			// a LoadCheckpoint error is an observation: the store resumed from nothing
+			if err := w.bootFrom(false, spURI); err != nil {
+				tags["load_error"] = true
 			}
 			cur := w.store.CurrentCheckpoint()
 			ct := "(@None snapobs)"
@@ -310,8 +355,13 @@ func execC12(c *hx.Case) (*hx.Result, error) {
 				ct = "(Some " + snapTerm(co) + ")"
 				last = cur.Id
 			}
-			terms = append(terms, fmt.Sprintf("XRestart %s %s", nlist(files), ct))
-			observed = append(observed, map[string]any{"restart_files": files, "current": co})
+			if spURI != "" {
+				terms = append(terms, fmt.Sprintf("XRestartFrom %s %s %s", hx.CoqN(spID), nlist(files), ct))
+				observed = append(observed, map[string]any{"start_from_savepoint": spID, "files": files, "current": co})
+			} else {
+				terms = append(terms, fmt.Sprintf("XRestart %s %s", nlist(files), ct))
+				observed = append(observed, map[string]any{"restart_files": files, "current": co})
+			}
 		default:
 			return nil, fmt.Errorf("unknown op %q", o.K)
 		}
@@ -336,10 +386,28 @@ func execC12(c *hx.Case) (*hx.Result, error) {
 // ---------- mode c13 ----------
 
 type op13 struct {
-	K   string   `json:"k"`             // seg | load | base | pub | w | r | t | crash
+	K   string   `json:"k"`             // seg | load | base | pub | w | r | t | crash | rw
+	N   int      `json:"n,omitempty"`   // pub: number of split states (content size of the snapshot file)
+	Sp  bool     `json:"sp,omitempty"`  // pub: a savepoint (artifact written after publication)
 	ID  uint64   `json:"id,omitempty"`  // seg: the id; base: the seeded checkpoint id
 	IDs []uint64 `json:"ids,omitempty"` // load
 	I   int      `json:"i,omitempty"`   // w / r : index into the parked calls (mod their number)
+}
+
+const badTag = 999999
+
+// fileTag: the number of split states of the snapshot the file holds (badTag if it is not exactly one parsable
+// job checkpoint of that id).
+func fileTag(path string, id uint64) uint64 {
+	data, err := os.ReadFile(path)
+	if err != nil {
+		return badTag
+	}
+	var c snapshotpb.JobCheckpoint
+	if err := proto.Unmarshal(data, &c); err != nil || c.Id != id || len(c.SourceCheckpoints) != 1 || len(c.OperatorCheckpoints) != 1 {
+		return badTag
+	}
+	return uint64(len(c.SourceCheckpoints[0].SplitStates))
 }
 
 // realSegment obtains pathSegment(id) from the real code through the public SavepointURIForID.
@@ -443,8 +511,10 @@ func execC13(c *hx.Case) (*hx.Result, error) {
 	}
 	var terms []string
 	var observed []any
-	npub, ncrash := 0, 0
-	outOfOrder, crashMulti := false, false
+	npub, ncrash, nsp, nrw, rewrites := 0, 0, 0, 0, 0
+	outOfOrder, crashMulti, loadErr := false, false, false
+	var sps []uint64 // ids with a savepoint artifact in storage
+	written := map[uint64]bool{}
 	var maxW uint64
 	for _, raw := range ops {
 		var o op13
@@ -453,10 +523,29 @@ func execC13(c *hx.Case) (*hx.Result, error) {
 		}
 		switch o.K {
 		case "pub":
-			id, err := w.store.CreateCheckpoint([]string{opName(1)}, []string{srName(1)})
+			var id uint64
+			var err error
+			if o.Sp {
+				id, _, err = w.store.CreateSavepoint([]string{opName(1)}, []string{srName(1)})
+			} else {
+				id, err = w.store.CreateCheckpoint([]string{opName(1)}, []string{srName(1)})
+			}
 			if err == nil {
-				e1 := w.store.AddOperatorSnapshot(&snapshotpb.OperatorCheckpoint{CheckpointId: id, OperatorId: opName(1), DkvFileUri: dkvURI(1, id, id)})
-				e2 := w.store.AddSourceSnapshot(&jobpb.SourceRunnerCheckpointCompleteRequest{CheckpointId: id, SourceRunnerId: srName(1), SplitStates: [][]byte{bytesOfTok(id)}})
+				// the operator's DKV checkpoints file (real, absolute: the savepoint artifact copies it)
+				uri := filepath.Join(tmp, dkvURI(1, id, id))
+				if o.Sp {
+					os.MkdirAll(filepath.Dir(uri), 0o777)
+					if err := os.WriteFile(uri, []byte(fmt.Sprintf(`{"checkpoints":[{"id":%d}]}`, id)), 0o644); err != nil {
+						return nil, err
+					}
+					nsp++
+				}
+				states := make([][]byte, o.N)
+				for i := range states {
+					states[i] = []byte(fmt.Sprintf("split-state-%d-of-checkpoint-%d", i, id))
+				}
+				e1 := w.store.AddOperatorSnapshot(&snapshotpb.OperatorCheckpoint{CheckpointId: id, OperatorId: opName(1), DkvFileUri: uri})
+				e2 := w.store.AddSourceSnapshot(&jobpb.SourceRunnerCheckpointCompleteRequest{CheckpointId: id, SourceRunnerId: srName(1), SplitStates: states})
 				if e1 != nil || e2 != nil {
 					return nil, fmt.Errorf("acks rejected: %v %v", e1, e2)
 				}
@@ -465,12 +554,12 @@ func execC13(c *hx.Case) (*hx.Result, error) {
 				id = 0
 			}
 			quiesce()
-			terms = append(terms, "YPub "+hx.CoqN(id))
-			observed = append(observed, map[string]any{"pub": id})
+			terms = append(terms, fmt.Sprintf("YPub %d %s %s", o.N, hx.CoqBool(o.Sp), hx.CoqN(id)))
+			observed = append(observed, map[string]any{"pub": id, "n": o.N, "sp": o.Sp})
 		case "w":
 			ws := w.g.parked(true)
 			ok := len(ws) > 0
-			var id uint64
+			var id, tag uint64
 			if ok {
 				cl := ws[o.I%len(ws)]
 				id = cl.ids[0]
@@ -478,11 +567,20 @@ func execC13(c *hx.Case) (*hx.Result, error) {
 					outOfOrder = true
 				}
 				maxW = max(maxW, id)
+				if written[id] {
+					rewrites++
+				}
+				written[id] = true
 				w.g.releaseCall(cl, true)
 				quiesce()
+				// what the file holds now, read back from the real directory
+				tag = fileTag(filepath.Join(tmp, cl.paths[0]), id)
+				if _, err := w.store.SavepointURIForID(id); err == nil && !containsU(sps, id) {
+					sps = append(sps, id)
+				}
 			}
-			terms = append(terms, fmt.Sprintf("YW %d %s", o.I, optN(ok, id)))
-			observed = append(observed, map[string]any{"write": id, "some": ok})
+			terms = append(terms, fmt.Sprintf("YW %d %s %s", o.I, optN(ok, id), hx.CoqN(tag)))
+			observed = append(observed, map[string]any{"write": id, "some": ok, "file_split_states": tag})
 		case "r":
 			rs := w.g.parked(false)
 			ok := len(rs) > 0
@@ -507,24 +605,44 @@ func execC13(c *hx.Case) (*hx.Result, error) {
 			}
 			terms = append(terms, "YT "+optNlist(ok, v))
 			observed = append(observed, map[string]any{"note": v, "some": ok})
-		case "crash":
+		case "crash", "rw":
 			ncrash++
 			w.abandon()
 			files := w.snapshotFiles()
 			if len(files) >= 2 {
 				crashMulti = true
 			}
-			if err := w.boot(true); err != nil {
-				return nil, fmt.Errorf("LoadCheckpoint: %v", err)
+			spURI, spID := "", uint64(0)
+			if o.K == "rw" && len(sps) > 0 {
+				spID = sps[o.I%len(sps)]
+				var err error
+				if spURI, err = w.store.SavepointURIForID(spID); err != nil {
+					return nil, err
+				}
+				nrw++
+			}
+			// a LoadCheckpoint error is an observation: nothing was resumed
+			if err := w.bootFrom(true, spURI); err != nil {
+				loadErr = true
 			}
 			cur := w.store.CurrentCheckpoint()
-			var lid uint64
+			var lid, ltag uint64
 			if cur != nil {
 				lid = cur.Id
+				if len(cur.SourceCheckpoints) == 1 {
+					ltag = uint64(len(cur.SourceCheckpoints[0].SplitStates))
+				} else {
+					ltag = badTag
+				}
 			}
 			maxW = 0
-			terms = append(terms, fmt.Sprintf("YCrash %s %s", nlist(files), optN(cur != nil, lid)))
-			observed = append(observed, map[string]any{"crash_files": files, "loaded": lid, "some": cur != nil})
+			if spURI != "" {
+				terms = append(terms, fmt.Sprintf("YRewind %s %s %s %s", hx.CoqN(spID), nlist(files), optN(cur != nil, lid), hx.CoqN(ltag)))
+				observed = append(observed, map[string]any{"start_from_savepoint": spID, "files": files, "loaded": lid, "some": cur != nil, "split_states": ltag})
+			} else {
+				terms = append(terms, fmt.Sprintf("YCrash %s %s %s", nlist(files), optN(cur != nil, lid), hx.CoqN(ltag)))
+				observed = append(observed, map[string]any{"crash_files": files, "loaded": lid, "some": cur != nil, "split_states": ltag})
+			}
 		default:
 			return nil, fmt.Errorf("unknown op %q in a schedule", o.K)
 		}
@@ -558,6 +676,18 @@ func execC13(c *hx.Case) (*hx.Result, error) {
 	}
 	if base > 1<<32 {
 		tags = append(tags, "huge_base")
+	}
+	if nsp > 0 {
+		tags = append(tags, "savepoints")
+	}
+	if nrw > 0 {
+		tags = append(tags, "start_from_savepoint")
+	}
+	if rewrites > 0 {
+		tags = append(tags, "snapshot_file_rewritten")
+	}
+	if loadErr {
+		tags = append(tags, "load_error")
 	}
 	if len(observed) > 16 {
 		observed = append(observed[:16:16], "...")
